@@ -184,6 +184,88 @@ func runRoundScenarios(c *ctx, t *hx.Trace, abs hx.Abs, newEnv func(string, map[
 		closeEnv(r)
 	}
 
+	// ---- scheduling: the report loop, single-stepped, launches the rounds itself
+	type schedScn struct {
+		sync  string // last-sync.txt: "recent", "old", "missing" (created at start-up: recent), "corrupt"
+		modes []string
+		iters int
+	}
+	scheds := []schedScn{
+		{"old", []string{"ok", "ok"}, 66},                                          // stale: sync at once, then after 60 iterations
+		{"recent", []string{"refuse"}, 50},                                         // recent: first sync after 30 iterations, then retries
+		{"corrupt", []string{"refuse", "refuse", "reset", "refuse", "badsig"}, 30}, // failing rounds of five attempts overlap
+		{"missing", []string{"refuse", "ok", "badsig"}, 40},
+	}
+	if c.tier == "thorough" {
+		for i := 0; i < 8; i++ {
+			n := 1 + rng.Intn(5)
+			var ms []string
+			for k := 0; k < n; k++ {
+				ms = append(ms, []string{"ok", "refuse", "reset", "badsig", "refuse", "stale"}[rng.Intn(6)])
+			}
+			scheds = append(scheds, schedScn{[]string{"recent", "old", "missing", "corrupt"}[rng.Intn(4)], ms, 20 + rng.Intn(50)})
+		}
+	}
+	if !c.part("sched") {
+		scheds = nil
+	}
+	for i, sc := range scheds {
+		servers := map[string]bool{}
+		for k := range sc.modes {
+			servers[fmt.Sprintf("f%d", k+1)] = false
+		}
+		r, err := newEnv(fmt.Sprintf("rounds/sched/%d", i), servers)
+		if err != nil {
+			return err
+		}
+		// restart with the scheduling events traced and the sync file as wanted
+		r.cli.Close()
+		lsf := filepath.Join(r.cli.Dir, client.LastSyncFile)
+		switch sc.sync {
+		case "recent":
+			os.WriteFile(lsf, []byte(fmt.Sprint(time.Now().Unix()-3600)), 0644)
+		case "old":
+			os.WriteFile(lsf, []byte(fmt.Sprint(time.Now().Unix()-7*3600)), 0644)
+		case "missing":
+			os.Remove(lsf)
+		case "corrupt":
+			os.WriteFile(lsf, []byte("12x"), 0644)
+		}
+		for k, m := range sc.modes {
+			setMode(r, fmt.Sprintf("f%d", k+1), m)
+		}
+		r.sched, r.recent = true, sc.sync == "recent" || sc.sync == "missing"
+		if err := r.cli.Start(); err != nil {
+			return err
+		}
+		for it := 0; it < sc.iters && !r.lost; it++ {
+			if !r.cli.Iterate() {
+				return fmt.Errorf("report loop did not complete an iteration")
+			}
+		}
+		// the loop is parked before its next iteration; wait for the rounds in flight
+		deadline := time.Now().Add(4 * time.Second)
+		for time.Now().Before(deadline) {
+			r.mu.Lock()
+			done := r.nreturn == r.nlaunch
+			r.mu.Unlock()
+			if done {
+				break
+			}
+			time.Sleep(10 * time.Millisecond)
+		}
+		r.mu.Lock()
+		done := r.nreturn == r.nlaunch && !r.lost
+		r.mu.Unlock()
+		if done {
+			t.Emit(hx.J{"a": "SchedQuiesce"})
+		} else {
+			t.Emit(hx.J{"a": "DriverNote", "note": "rounds still in flight"})
+		}
+		t.Emit(hx.J{"a": "ClientClosing"})
+		closeEnv(r)
+	}
+
 	// ---- C17: lists and migration orders
 	if c.part("lists") {
 		r, err := newEnv("rounds/lists", map[string]bool{"f1": false, "f2": false, "f3": true})
